@@ -2,4 +2,4 @@ From E2V Require Import Layout.Layout.
 Require Extraction.
 Require Import ExtrOcamlBasic.
 Extraction Language OCaml.
-Extraction "layout_model.ml" bg_has_super super_and_bgd_loc list_backups_n descriptor_block_loc list_backups_ss2_n.
+Extraction "layout_model.ml" bg_has_super super_and_bgd_loc list_backups_n descriptor_block_loc descriptor_block_loc_big list_backups_ss2_n.
